@@ -2,11 +2,16 @@
 
 Theorems (lean/CffiVerif/Props/C32.lean): parse_flatten, flatten_injective,
 kwargs_order_irrelevant, flatten_error_iff, key_injective_partial,
-key_not_injective_with_nul, k1_k2_unambiguous, name_collision_only_by_crc over
+key_not_injective_with_nul, k1_k2_unambiguous, name_collision_only_by_crc(_text),
+model_is_the_translated_source over
 the model of ffiplatform.flatten and of the key/name construction in
 Verifier.__init__ (lean/CffiVerif/Model/Flatten.lean).
 
 Tie to the code:
+  T. translate/c32_py.py re-translates `_flatten` (dispatch order, format strings, sorted keys, loops) and the name
+     computation of `Verifier.__init__` (key parts, separator, CRC halves, mask, strip sets, name format) into
+     Generated/FlattenPy.lean on every run (raising when the code changes shape);
+     `model_is_the_translated_source` proves the model equal to it.
   F. the real `ffiplatform.flatten` against the model on random nested values
      (text and TypeError), the model's *parser* applied to the text the real
      flatten wrote must give the value back (dicts in key order);
@@ -67,6 +72,12 @@ CLASSES = {
 
 FMT = "0123456789sild-"
 EXTRA = ["x", " ", "\0", "é", "€", "\U0001d11e", "A", "_"]
+
+
+def translators(ctx):
+    sys.path.insert(0, os.path.join(common.VERIF, "translate"))
+    import c32_py
+    return [c32_py.run]
 
 
 # ------------------------------------------------------------------ values
